@@ -213,6 +213,18 @@ class Gen:
                 if p["direction"] in ("output", "through"):
                     open_wires.append(f"{cn}.{p['name']}")
             children.append(child)
+            # a twin: the same definition under another name and another type (nothing else differs)
+            spare = [x for x in CHILD_NAMES if x not in names and x not in [c["name"] for c in children]]
+            if k_in == 0 and not is_rep and spare and rng.random() < 0.15:
+                import copy
+                twin = copy.deepcopy(child)
+                twin["name"] = spare[0]
+                twin["type"] = "twin" if child["type"] != "twin" else None
+                for p in twin["ports"]:
+                    if p["direction"] in ("output", "through"):
+                        open_wires.append(f"{twin['name']}.{p['name']}")
+                children.append(twin)
+                self.nodes += count_nodes(twin)
         for k, w in enumerate(open_wires):
             ports.append({"name": f"out_{k}", "direction": "output", "size": None})
             connections.append([w, f"out_{k}"])
